@@ -332,6 +332,103 @@ func runC13(c *an.Ctx) {
 		},
 	})
 
+	// ---- R1d: when the cache file counts as fresh
+	decide(c, "C13-R1", rf+"refreshFromFile", an.DecideCfg{
+		Dom: an.Domain{"open": an.Strs("ok", "notexist", "other"), "p1": an.Bools, "staterr": an.Bools, "fresh": an.Bools, "copyerr": an.Bools},
+		Inline: func(f *ssa.Function) bool { return strings.HasPrefix(an.FnKey(f), rf+"refreshFromFile$") },
+		OnCall: func(it *an.Interp, name string, args []an.AV) (an.AV, bool) {
+			switch {
+			case name == "os.Open":
+				if args[0].String() != "p2" {
+					return an.Sym("another file opened"), true
+				}
+				switch avStr(it.Feature("open")) {
+				case "ok":
+					return an.AV{Kind: an.KTuple, Tup: []an.AV{an.NonNil("file"), an.Nil()}}, true
+				case "notexist":
+					return an.AV{Kind: an.KTuple, Tup: []an.AV{an.Nil(), an.NonNil("err:notexist")}}, true
+				}
+				return an.AV{Kind: an.KTuple, Tup: []an.AV{an.Nil(), an.NonNil("err:other")}}, true
+			case strings.HasSuffix(name, "errors.Is"):
+				return an.CBool(args[0].Kind == an.KNonNil && args[0].Key == "err:notexist"), true
+			case name == "(*os.File).Stat":
+				if it.Feature("staterr").IsTrue() {
+					return an.AV{Kind: an.KTuple, Tup: []an.AV{an.Nil(), an.NonNil("statErr")}}, true
+				}
+				return an.AV{Kind: an.KTuple, Tup: []an.AV{an.NonNil("fi"), an.Nil()}}, true
+			case strings.HasSuffix(name, ".ModTime"):
+				return an.Sym("mtime"), true
+			case name == "(time.Time).Add":
+				return an.Sym("add(" + args[0].String() + "," + args[1].String() + ")"), true
+			case name == "(time.Time).After":
+				if args[0].String() == "add(mtime,p0.staleness)" && args[1].String() == "p3" {
+					return it.Feature("fresh"), true
+				}
+				return an.Sym("another freshness comparison: " + args[0].String() + " after " + args[1].String()), true
+			case name == "(time.Time).Before":
+				return an.Sym("another freshness comparison (Before)"), true
+			case name == "io.Copy":
+				if it.Feature("copyerr").IsTrue() {
+					return an.AV{Kind: an.KTuple, Tup: []an.AV{an.Sym("n"), an.NonNil("copyErr")}}, true
+				}
+				return an.AV{Kind: an.KTuple, Tup: []an.AV{an.Sym("n"), an.Nil()}}, true
+			case name == "(*strings.Builder).String":
+				return an.Sym("content"), true
+			case name == "(*os.File).Close":
+				return an.Nil(), true
+			case strings.HasSuffix(name, "errors.WithDeferred"):
+				if args[0].Kind != an.KNil {
+					return args[0], true
+				}
+				return args[1], true
+			case name == "fmt.Errorf":
+				return an.NonNil("wrapped"), true
+			}
+			return an.AV{}, false
+		},
+		Expect: func(f an.Features, o an.AOutcome) string {
+			if o.Exit != "return" || len(o.Ret) != 2 {
+				return "a (text, err) result"
+			}
+			switch f.S("open") {
+			case "notexist":
+				if o.RetString() == `"", nil` {
+					return ""
+				}
+				return `"", nil (a missing cache file means: download)`
+			case "other":
+				if o.Ret[1].Kind != an.KNil {
+					return ""
+				}
+				return "an error when the cache file cannot be opened"
+			}
+			if !f.B("p1") {
+				if f.B("staterr") {
+					if o.Ret[1].Kind != an.KNil {
+						return ""
+					}
+					return "an error when the file's age cannot be read"
+				}
+				if !f.B("fresh") {
+					if o.RetString() == `"", nil` {
+						return ""
+					}
+					return `"", nil for a file older than the staleness period relative to the update time (a stale list must be downloaded again); got ` + o.RetString()
+				}
+			}
+			if f.B("copyerr") {
+				if o.Ret[1].Kind != an.KNil {
+					return ""
+				}
+				return "an error when the file cannot be read"
+			}
+			if o.RetString() != "content, nil" {
+				return "the file's content; got " + o.RetString()
+			}
+			return ""
+		},
+	})
+
 	// ---- R1c: the cache file is preferred when fresh, the URL used only when it yields nothing
 	decide(c, "C13-R1", rf+"useCachedOrRefreshFromURL", an.DecideCfg{
 		Dom: an.Domain{"fileerr": an.Bools, `(filetext == "")`: an.Bools, "urlerr": an.Bools},
